@@ -192,6 +192,7 @@ type phaseInfo struct {
 	MasterBefore     int      `json:"master_before"`
 	FaultTick        [2]int64 `json:"fault_tick"` // logical time just before / after the signal was sent
 	FlushPoint       string   `json:"flush_point,omitempty"`
+	EventOfVictim    string   `json:"event_recorded_for_victim"`
 	MasterOneDown    int      `json:"master_after_quiesce_one_down"`
 	LeaderOneDown    int      `json:"raft_leader_after_quiesce_one_down"`
 	HealTick         int64    `json:"heal_tick"`
